@@ -99,6 +99,27 @@ def check_validate_funds(ctx, model):
                     # the edge on which the denom is NOT among the whitelisted ones rejects
                     member_true = mt[1] != bool(c.neg)
                     atoms["whitelisted"] = (b, fe if member_true else te)
+    # the whitelist: written as `any(..)`, as its De Morgan dual, or as a search loop that returns Ok on the first match --
+    # in every form a successful return lies behind "some whitelisted denom equals the declared denom"
+    wl_pass = []
+    for b, c, _ in switch_conds(v):
+        te, fe = cmp_true_false_edges(v, b, c) if c.kind in ("cmp", "call", "place") else ([], [])
+        mt = membership_test(model, v, c)
+        if mt and mt[0] and all(o.kind == "load" and tuple(o.proj) == ("bonding_assets",) for o in mt[0]):
+            wl_pass += te if (mt[1] != bool(c.neg)) else fe
+        elif c.kind == "cmp" and c.op in ("==", "!="):
+            at = cond_at(v, c)
+            oa, ob = v.origins_of_operand(c.a, at=at), v.origins_of_operand(c.b, at=at)
+            wl = lambda os_: bool(os_) and any(o.kind == "load" and "bonding_assets" in o.proj and "denom" in o.proj for o in os_) and all(
+                (o.kind == "load" and "bonding_assets" in o.proj) or (o.kind == "call" and o.a.endswith("String::new")) for o in os_)
+            dd = lambda os_: bool(os_) and all(o.kind == "param" and "String" in v.local_ty(o.a) and not o.proj for o in os_)
+            if (wl(oa) and dd(ob)) or (wl(ob) and dd(oa)):
+                wl_pass += te if c.op == "==" else fe
+    if atoms["whitelisted"] is None and wl_pass and oks:
+        okw = all(v.edge_dominated(ob_, wl_pass) for ob_ in oks)
+        ctx.ob("C08-B1", "%s|atom|whitelisted" % VF, okw,
+               "every successful return lies behind `a whitelisted denom == the declared denom`: %s" % okw, v.where())
+        atoms.pop("whitelisted")
     for name, val in sorted(atoms.items()):
         if val is None:
             ctx.ob("C08-B1", "%s|atom|%s" % (VF, name), False, "rejection atom '%s' not found in validate_funds" % name, v.where())
